@@ -140,3 +140,15 @@ CLAIMS["C03"] = (
     "6/C03", TRUSTED + "; the predicates cover Add/Mul/Pow/number classes structurally, other classes through the "
     "library's own assertions (hook H1) only",
     "TLA+ canonical-form predicates + assertion hook + TLC trace validation")
+
+CLAIMS["C27"] = (
+    "model_checking",
+    "TLC enumerates ordered pairs of 55 (thorough 110) primitive sets over a grid under union, intersection and "
+    "complement (free functions and methods), seeded three-set combinations and closure/interior/boundary of "
+    "interval-and-finite-set unions; the pointwise semantics Mem of module SetsAlg (three-valued, by recursion on "
+    "set terms; topological operators by definition on the cell decomposition) is evaluated by TLC on the recipe "
+    "and on the dumped result at 35 probe points covering every grid value and every (gap, kind) cell, and "
+    "contains() answers are validated against it",
+    "6/C27", TRUSTED + "; completeness of the probe set holds for sets whose break points lie on the grid "
+    "{-2,-1,0,1/2,1,3/2,2,3}; sup/inf are not checked yet",
+    "TLA+ pointwise set semantics on a complete probe grid + TLC trace validation")
